@@ -159,6 +159,15 @@ def generate():
             for n in (32, 48, 49, 64):
                 add("4-asymmetric-key-size", "PasetoAsymmetric%sKey<V%d> from Key<%d>" % (half, v, n), "core", ["let raw = Key::<%d>::from([2u8; %d]);" % (n, n)],
                     "let _ = PasetoAsymmetric%sKey::<V%d, Public>::try_from(&raw);" % (half, v), (v, n, half) in documented)
+    # fixed-size arrays (not Key<N>) as key material: no asymmetric key type is constructible from them
+    for half in ("Private", "Public"):
+        for v in (1, 2, 3, 4):
+            for n in (32, 48, 49, 64):
+                add("4-asymmetric-key-from-array", "PasetoAsymmetric%sKey<V%d> from &[u8; %d]" % (half, v, n), "core", ["let raw = [2u8; %d];" % n],
+                    "let _ = PasetoAsymmetric%sKey::<V%d, Public>::from(&raw);" % (half, v), False)
+    # ... while the documented slice form still works where it is documented (controls)
+    add("4-asymmetric-key-from-array", "PasetoAsymmetricPrivateKey<V2> from &[u8] slice", "core", ["let raw = [2u8; 64];"], "let _ = PasetoAsymmetricPrivateKey::<V2, Public>::from(&raw[..]);", True)
+    add("4-asymmetric-key-from-array", "PasetoAsymmetricPublicKey<V1> from &[u8] slice", "core", ["let raw = [2u8; 64];"], "let _ = PasetoAsymmetricPublicKey::<V1, Public>::from(&raw[..]);", True)
     return progs
 
 
